@@ -161,6 +161,79 @@ chk('C09', 'translation_validation',
     'z3 identities between real extension results and documented formulas',
     'DESIGN.md section 3 C09', 'E2')
 
+chk('C03', 'other',
+    'Mechanism level, bounded symbolic execution (CrossHair/z3): the real lark record parsers on every text of <=2 '
+    '(thorough 3) characters over 7-character per-record alphabets (reject, or str(root)==T; also through NMTranParser), '
+    'and the code that makes the round trip and frame conditions hold: the ignored-character tokenizer (<=3/4 chars), '
+    'interleave_ignored / with_ignored_tokens on stand-in trees with symbolic token ranges (8 shapes), NMTranParser '
+    'record splitting (<=4/5 chars), CodeRecord.update_statements + _index_statements_diff bookkeeping (<=2 statements '
+    'of 3), AttrTree edit helpers (<=3/4 children).',
+    'Partial: a grammar defect that needs more than 2-3 characters to show is NOT detected; update_source and the '
+    'per-record updaters, real statement printing and AbbreviatedRecordParser are outside. Trusted: lark.Token stand-in, '
+    'identity record parser in the splitting obligation, _statement_to_nodes stub, identity-equality Assignment subclass; '
+    'counterexamples are re-evaluated with the real lark.Token / parsers.',
+    'symbolic execution (CrossHair+z3) of real parser / CST code, bounded',
+    'DESIGN.md section 3 C03', 'E1')
+
+chk('C04', 'other',
+    'Partial, mechanism level: CrossHair/z3 on the real lcs.diff (script reproduces old and new and keeps a longest '
+    'common subsequence, sequences <=3), reorder_diff, update_thetas and update_random_variable_records over contract '
+    'stubs of the record classes (every record layout and every keep/change/remove/add edit within k<=3: each record '
+    'receives exactly its own parameters, unchanged records are returned as the same object), parameters_from_blocks / '
+    'rvs_from_blocks numbering incl. SAME (<=3 blocks), and a z3 integer lemma for triangular_root.',
+    'Text-level record surgery, numeric rendering, SD/CORR/CHOLESKY scales, name comments, $ABBR and IOV/SAME updates '
+    'are outside (contract stubs ThetaRecord/OmegaRecord). Reordering kept thetas/etas is outside the edit alphabet of '
+    'the property. One deviation region (omega inserted into a multi-item DIAGONAL record) is a known finding.',
+    'symbolic execution (CrossHair+z3) of real diff / record-update bookkeeping over contract stubs; z3 lemma',
+    'DESIGN.md section 3 C04', 'E1')
+
+chk('C13', 'other',
+    'Partial (lexical kernel): bounded symbolic execution (CrossHair/z3) of the real separator regex (AST-extracted from '
+    'the source), NMTRANDataIO prefilter, _convert_data_item / convert_fortran_number and parse_column_info against a '
+    'reference reader written from docs/NONMEM.rst: all rows/texts <=4 (thorough 5) characters and all items <=3-4 '
+    'characters over the stated alphabets, <=2 $INPUT options; plus z3 regex-theory equivalence of the separator and '
+    'comment regex literals with the documented languages (no length bound).',
+    'NOT claimed: pd.read_table assembly / padding, IGNORE/ACCEPT filters, TIME/DATE, the write/read cycle. Trusted: the '
+    'reference reader, np.float64 recorder (Python float syntax), StringIO constructor recorder, pandas '
+    '`pat.split(line.strip())` (checked at run time), stub $INPUT stream. Counterexamples are re-evaluated unstubbed.',
+    'symbolic execution (CrossHair+z3) of real dataset lexing code + z3 regex language equivalence',
+    'DESIGN.md section 3 C13', 'E1')
+
+chk('C17', 'other',
+    'Bounded symbolic execution (CrossHair/z3) of the real WorkflowBuilder / Workflow / insert_context / execute_workflow '
+    'task rewriting: for <=4 (thorough 5) tasks with symbolic edge sets, symbolic int and short string static inputs and '
+    'every subset of context-taking tasks, as_dask_dict evaluated by a small evaluator of the dask graph specification '
+    'equals a topological evaluation of the declared graph (each task once, statics then predecessors in entry order); '
+    'add_task, insert_workflow (N:N, N:1, 1:N; N:M refused), replace_task and + keep exactly the declared tasks/edges.',
+    'Trusted: the dask graph-spec evaluator, deterministic uuid stand-in, networkx dict-factory rebinding (CrossHair), '
+    'dispatcher stub; dask schedulers are trusted (counterexamples are replayed on dask.threaded.get). More tasks than '
+    'the bound and tuple/list/Model static inputs are outside.',
+    'symbolic execution (CrossHair+z3) of real workflow construction code vs reference topological evaluation',
+    'DESIGN.md section 3 C17', 'E1')
+
+chk('C18', 'other',
+    'Bounded symbolic execution (CrossHair/z3): for every operand pair within the stated option tables ModelFeatures '
+    '+, -, ==, contain_subset and least_number_of_transformations agree with set operations on the expanded options; '
+    'partitions / subsets are exact for all distinct element values n<=4 (5); modelsearch exhaustive / stepwise / '
+    'reduced_stepwise and the iivsearch brute-force builders enumerate exactly the documented candidates, once each with '
+    'unique names, for every subset of a 6 (8)-key universe; stringify(parse(.)) is the identity on the table statements.',
+    'Object side only: MFL text as arbitrary input, expand/@refs and runtime IIV strategies are outside. Operand options '
+    'are table-indexed (one solver path per entry, concrete execution after indexing). 12 deviation regions are separate '
+    'finding obligations listed in known_findings.json.',
+    'symbolic execution (CrossHair+z3) of real MFL algebra / enumeration code vs set semantics',
+    'DESIGN.md section 3 C18', 'E1')
+
+chk('C19', 'other',
+    'Partial: CrossHair/z3 on the real rank_models / get_rankval / is_strictness_fulfilled / lrt functions with contract '
+    'stubs for numpy, pandas and scipy (integer OFVs, NaN flags, cut-offs, penalties, parent maps; <=3 (4) candidates): '
+    'eligibility, deltas, competition ranking with shared ranks, failed candidates never above eligible ones, best = top '
+    'eligible; plus z3 Real likelihoods passed through the real calculate_aic / calculate_bic (4 types) / lrt.test / '
+    'p_value on 8 corpus models and compared with the documented formulas over independently counted parameters.',
+    'NOT claimed: float OFVs, pandas-bound strictness atoms, calculate_bic_penalty, and all bootstrap / cdd / simeval / '
+    'shrinkage / delta-method statistics (numpy/pandas). Trusted: FakeNp/FakePd contract stubs, linear chi-square table.',
+    'symbolic execution (CrossHair+z3) of real ranking code + z3 term equality for information criteria',
+    'DESIGN.md section 3 C19', 'E1')
+
 NA['C14'] = ('derivations are vectorised pandas pipelines (groupby/cumsum/explode/query); CrossHair realises at the '
              'first DataFrame call and no faithful SMT semantics of pandas exists here; solver-generated datasets '
              'would be sampling')
